@@ -619,7 +619,7 @@ def make_constructor_loader(cls: type[T]) -> Loader[T]:
     def constructor_loader(data):
         try:
             return cls(data)
-        except (TypeError, AttributeError):
+        except (TypeError, AttributeError, IndexError):  # IPv4Network(()) raises IndexError
             raise TypeLoadError(str, data)
         except ValueError as e:
             raise ValueLoadError(str(e), data)
